@@ -1600,14 +1600,6 @@ void run_rank(vf::ctx_t& c, int rank, const std::array<tensor_size_t, 5>& dims, 
 
 void run_type(vf::ctx_t& c, int type_id, int rank, const std::array<tensor_size_t, 5>& dims)
 {
-#ifdef C16_ONE
-    run_rank<double>(c, rank, dims, type_id);
-    return;
-#endif
-#ifdef C16_ONE_LIGHT
-    run_rank<float>(c, rank, dims, type_id);
-    return;
-#endif
     switch (type_id)
     {
     case 0: run_rank<int8_t>(c, rank, dims, type_id); break;
@@ -1702,7 +1694,7 @@ int main(int argc, char** argv)
         exhaustive ? "case index i -> (shape (i/10)%1804 of the complete list: rank 1..4 dims 0..4, rank 5 dims 0..3; scalar type i%10 of "
                      "int8..uint64,float,double); every index tuple, prefix, slice, factorisation (ranks 1..4, incl. every -1 position), all "
                      "remove_if masks, all stack splits, random gathers; non-trivial: >= 2 elements; distinct by hash(type, dims, gather list)"
-                   : "case = random shape of rank 1..5 with up to 1e5 elements (8% with one zero dim, 20% unit dims) x random scalar type; all "
+                   : "case = random shape of rank 1..5 with up to 1e5 elements (8% with one zero dim, 20% unit dims) x random scalar type (40% double); all "
                      "index tuples and prefixes, sampled view elements/slices/factorisations; non-trivial: >= 2 elements; distinct by "
                      "hash(type, dims, gather list)";
     return vf::run(args, "C16", rule,
@@ -1716,7 +1708,8 @@ int main(int argc, char** argv)
                        }
                        else
                        {
-                           const auto type_id = static_cast<int>(c.rng.integer(0, 9));
+                           // double carries the complete suite: 40% of the cases, the other nine types share the rest
+                           const auto type_id = c.rng.chance(0.4) ? 9 : static_cast<int>(c.rng.integer(0, 8));
                            const auto s       = random_shape(c.rng);
                            run_type(c, type_id, s.rank, s.dims);
                        }
